@@ -205,12 +205,12 @@ func vhPatternB(shape int, b *vhB) map[string]interface{} {
 	case 3:
 		return map[string]interface{}{b.key(): []interface{}{b.leaf("?x")}}
 	case 4:
-		c := b.scalar2()
-		l := b.leaf2("?x")
-		if _, isVar := vhIsVarString(l); !isVar {
-			vhScalarsDistinct(c, l)
+		if vchoose(2) == 0 {
+			c, l := b.pair()
+			return map[string]interface{}{b.key(): []interface{}{c, l}}
 		}
-		return map[string]interface{}{b.key(): []interface{}{c, l}}
+		vassume(!b.noVarConst)
+		return map[string]interface{}{b.key(): []interface{}{b.scalar2(), "?x"}}
 	case 5:
 		k1, k2 := b.key(), b.key()
 		vhDistinct(k1, k2)
@@ -219,6 +219,14 @@ func vhPatternB(shape int, b *vhB) map[string]interface{} {
 		return map[string]interface{}{b.key(): []interface{}{map[string]interface{}{b.key(): b.leaf2("?x")}}}
 	case 7:
 		return map[string]interface{}{}
+	case 8:
+		return map[string]interface{}{b.key(): map[string]interface{}{}}
+	case 9:
+		return map[string]interface{}{b.key(): []interface{}{}}
+	case 10:
+		k1, k2 := b.key(), b.key()
+		vhDistinct(k1, k2)
+		return map[string]interface{}{k1: map[string]interface{}{}, k2: b.leaf2("?x")}
 	}
 	vassume(false)
 	return nil
@@ -241,8 +249,7 @@ func vhDataB(shape int, b *vhB) map[string]interface{} {
 	case 3:
 		return map[string]interface{}{b.anyKey(): []interface{}{b.scalar()}}
 	case 4:
-		e1, e2 := b.scalar2(), b.scalar2()
-		vhScalarsDistinct(e1, e2)
+		e1, e2 := b.pair()
 		return map[string]interface{}{b.anyKey(): []interface{}{e1, e2}}
 	case 5:
 		k1, k2 := b.anyKey(), b.anyKey()
@@ -250,12 +257,17 @@ func vhDataB(shape int, b *vhB) map[string]interface{} {
 		return map[string]interface{}{k1: b.scalar2(), k2: map[string]interface{}{b.anyKey(): b.scalar2()}}
 	case 6:
 		k1, k2 := b.anyKey(), b.anyKey()
+		vassume(!b.sortable) // two maps in one array cannot be sorted by the pattern index
 		m1 := map[string]interface{}{k1: b.scalar2()}
 		m2 := map[string]interface{}{k2: b.scalar2()}
 		vassume(!vdeepEq(m1, m2)) // arrays are sets: elements pairwise distinct
 		return map[string]interface{}{b.anyKey(): []interface{}{m1, m2}}
 	case 7:
 		return map[string]interface{}{}
+	case 8:
+		return map[string]interface{}{b.anyKey(): map[string]interface{}{}}
+	case 9:
+		return map[string]interface{}{b.anyKey(): []interface{}{}}
 	}
 	vassume(false)
 	return nil
